@@ -27,7 +27,7 @@ import irispie as ir
 from .common import Ctx, Rng, rat_of_float, VERIF
 
 DRIVERS = ["C01"]
-EXTRA_PROPS = ["QMatBridge", "C01QZ", "BridgeC01Sim", "C01State"]   # refinement bridge: the executable QMat model satisfies the hypotheses of the matrix-level theorems
+EXTRA_PROPS = ['QMatBridge', 'C01QZ', 'BridgeC01Sim', 'C01State', 'GenTieCore', 'GenTieC01']   # refinement bridge: the executable QMat model satisfies the hypotheses of the matrix-level theorems
 LEVEL = "proof"
 MANIFEST = {
     "category": "proof",
@@ -42,7 +42,10 @@ MANIFEST = {
              "block algebra of _solve_transition_equations (Props/C01QZ.lean): exact QZ identities + invertible S11, T22, S22+T22, Z21 => the computed "
              "T, K, P satisfy E1=E2=E3=0 and, with the computed X, J, Ru, every equation holds in every period with unanticipated and anticipated "
              "shocks; the Schur rotation cancels and T Ua = Ua Ta; the executable certificate (QMatBridge) and the executable state recursion / "
-             "forward expansion (BridgeC01Sim) refine the theorem-level definitions. "
+             "forward expansion (BridgeC01Sim) refine the theorem-level definitions; object state and loops (Props/C01State.lean): the expansion memo as a "
+             "state machine (any sequence of horizon requests = fresh computations), histories on one object (assign/solve/observe/copy: every "
+             "observation is the pure function of the parameters in force), variant locality of the solve/simulate loop, the frame-window condition for "
+             "split = single, uniqueness of the bounded unstable block. "
              "PARTIAL: the quantifier over model programs is covered by translation validation -- per generated model the certificate is "
              "evaluated in exact rational arithmetic on the implementation's own systemize()/get_solution() matrices (bound 1e-8*scale), "
              "the stability certificate and T Ua = Ua Ta exactly, the simulated databox against the exact recursion; that scipy's ordqz/schur/lstsq "
@@ -1332,8 +1335,9 @@ def memo_stream_item(b: Built, r: Rng, tag):
     return (dict(tag, requests=fs), line, " | ".join(outs))
 
 
-def which_parameterisation(mobj, deviation, fresh) -> tuple[int, bool]:
-    """index of the parameterisation whose FRESH solution the object uses for `_gets_solution(deviation)`; K zero as it should be?"""
+def which_parameterisation(mobj, deviation, fresh):
+    """indexes of the parameterisations whose FRESH solution (T, P, Z) the object uses for `_gets_solution(deviation)` -- several when
+    two parameterisations happen to have the same T, P, Z --, and whether K, D are zero"""
     sol = mobj._gets_solution(deviation=deviation)
     hits = []
     for idx, fs in enumerate(fresh):
@@ -1344,11 +1348,22 @@ def which_parameterisation(mobj, deviation, fresh) -> tuple[int, bool]:
         if max(dT, dP, dZ) <= 1e-9 * sc:
             hits.append(idx)
     kzero = bool(np.all(sol.K == 0)) and bool(np.all(np.asarray(sol.D) == 0))
-    return (hits[0] if len(hits) == 1 else -1), kzero
+    return hits, kzero
 
 
-def obs_token(cur, idx, kzero, deviation) -> str:
-    return f"{cur}:{idx}:{'D' if deviation else 'L'}" + ("" if (kzero or not deviation) else "!")
+def obs_token(cur, hits, kzero, deviation) -> str:
+    return f"{cur}:{'/'.join(str(h) for h in hits) or '-1'}:{'D' if deviation else 'L'}" + ("" if (kzero or not deviation) else "!")
+
+
+def history_tokens_agree(impl: str, model: str) -> bool:
+    a, b = impl.split(","), model.split(",")
+    if len(a) != len(b):
+        return False
+    for x, y in zip(a, b):
+        xs, ys = x.split(":"), y.split(":")
+        if len(xs) != 3 or len(ys) != 3 or xs[0] != ys[0] or xs[2] != ys[2] or ys[1] not in xs[1].split("/"):
+            return False
+    return True
 
 
 def impl_variant_plan(b: Built, case, n, M, D) -> str:
@@ -1433,9 +1448,14 @@ def flush_lines(ctx: Ctx, lines: dict):
     ctx.compare("simulate-dyadic", [{"model": t["model"], "spec": t["spec"], "case": t["case"], "override": True, "seedtag": t["seedtag"]} for (t, _, _) in items],
                 [imp for (_, _, imp) in items], replies)
     # class D: expansion memo (sequence of horizon requests on one object); class E: history state machine, variant plan
-    for key, stream in (("memo", "expansion-memo"), ("hist", "history-state"), ("plan", "variant-plan")):
+    for key, stream in (("memo", "expansion-memo"), ("plan", "variant-plan")):
         items = lines[key]
-        ctx.compare(stream, [{k: v for k, v in t.items() if k != "family"} for (t, _, _) in items], [imp for (_, _, imp) in items], rep_of[key])
+        ctx.compare(stream, [t for (t, _, _) in items], [imp for (_, _, imp) in items], rep_of[key])
+    if rep_of["hist"] is not None:
+        for (t, l, imp), rep in zip(lines["hist"], rep_of["hist"]):
+            ctx.streams_compared["history-state"] = ctx.streams_compared.get("history-state", 0) + 1
+            if not history_tokens_agree(imp, rep):       # the model's index must be among the parameterisations the object's solution matches
+                ctx.disagree("history-state", t, imp, rep)
     # stability certificate
     items = lines["stab"]
     replies = rep_of["stab"]
